@@ -169,14 +169,22 @@ def run_app_bursts(ctx):
     frames of fragmented messages — with a ping between two fragments — arrive in ONE segment / TLS record, then the server
     waits; every message reaches on_message once, in order, whole.  Real runs under the virtual-time scheduler, oracle only."""
     import appcheck
+    import appsim
     from props import c13
     scs = []
-    for word in (["U"], ["U", "U"], ["t", "U", "b"], ["T", "U"], ["U", "B", "U"], ["H", "U"]):
+    for word in (["U"], ["U", "U"], ["t", "U", "b"], ["T", "U"], ["U", "B", "U"], ["H", "U"],
+                 ["t", "q", "b"], ["U", "q", "T"], ["T", "Q", "B", "q", "t"]):       # (q / Q: a pong the server sends unasked, as a heartbeat)
         for end in ("silence", "eof"):
             for ssl in (False, True):
                 sc = c13.scenario(word, end, ssl)
                 sc["tag"] = f"{''.join(word)}|{end}+burst"
                 scs.append(sc)
+    # an EMPTY first fragment (legal), the payload in the continuation; with a ping in between
+    for evs in ([[50, 0, "T", "61"], [50, 0, "B", "00"], [50, 0, "t", "6f6b"]],
+                [[50, 0, "B", "ff"], [0, 1, "p", "70"], [0, 1, "T", "7a"]]):
+        for ssl in (False, True):
+            scs.append({"cbs": appsim.ALL, "ssl": ssl, "runs": [[["E", evs + [[50, 0, "e", ""]]]]], "horizon": 60 * 1024,
+                        "tag": "empty-first-fragment|eof+burst"})
     for sc, r in zip(scs, appcheck.run_real_many(scs)):
         want = []
         for ev in sc["runs"][0][0][1]:
